@@ -446,6 +446,13 @@ func build(tier string) []*vkit.Scenario {
 				NonTrivial: func(mm map[string]int) bool { return mm["responses"] > 0 || mm["client_errors"] > 0 }})
 		}
 	}
+	// the pooling Client: several origins through one Client
+	for _, pc := range poolScenarios(thorough) {
+		out = append(out, &vkit.Scenario{Name: pc.title(), Body: poolBody(pc), Check: check, P: pc.p,
+			Opts:     vsched.Options{Horizon: 60000},
+			Counters: func() map[string]int { return lastCounters }, Outcome: func() string { return lastOutcome },
+			NonTrivial: func(mm map[string]int) bool { return mm["responses"] > 0 || mm["client_errors"] > 0 }})
+	}
 	return out
 }
 
